@@ -47,11 +47,11 @@ func genInitrace(r *wire.Rng) *History {
 				break
 			}
 		}
-		ops = append(ops, o)
+		ops = append(ops, normSE(o))
 	} else {
 		o := genSE(r, name, &clock)
 		o.Exp = nil
-		ops = append(ops, o)
+		ops = append(ops, normSE(o))
 	}
 	if r.Chance(1, 3) {
 		w2 := w.clone()
